@@ -603,3 +603,51 @@ for _o in OBLIGATIONS:
         _o["mem_gb"] = 3
     elif n.startswith("C01.king.") or n == "C01.is_legal":
         _o["mem_gb"] = 4
+
+# =========================================================================== quick-tier budget
+# `vp check` stops a quick command after 900 s (and its sandbox can be ~2x slower than this one): every quick check
+# is budgeted to <= ~350 s here. Obligations above ~350 s of solver time run in the thorough tier only; families of
+# similar obligations are sliced by VERIF_SEED (every obligation is in exactly one slice; thorough runs all).
+def _thorough(*names):
+    for _o in OBLIGATIONS:
+        if _o["name"] in names:
+            _o["tier"] = "thorough"
+            _o.pop("part", None)
+def _slice(mapping, n):
+    for _o in OBLIGATIONS:
+        if _o["name"] in mapping:
+            _o["part"] = (mapping[_o["name"]], n)
+def _untag(prop, *names):
+    for _o in OBLIGATIONS:
+        if _o["name"] in names and prop in _o["props"] and len(_o["props"]) > 1:
+            _o["props"].remove(prop)
+
+# C01: heavy bodies, skipped-member lemmas, king_position, is_legal, dispatch lemma -> thorough
+_thorough("C01.rook.nocheck.body", "C01.rook.check.body", "C01.queen.nocheck.body", "C01.queen.check.body", "C01.knight.check.body",
+          "C01.pawn.nocheck.body", "C01.pawn.check.body", "C01.knight.skipped", "C01.bishop.skipped", "C01.rook.skipped", "C01.queen.skipped",
+          "C01.pawn.skipped", "C01.king_position", "C01.is_legal", "C01.dispatch.lemma")
+for _o in OBLIGATIONS:
+    if _o["name"].startswith("C01.") and _o.get("tier", "quick") == "quick":
+        _o.pop("part", None)
+_slice({"C01.bishop.nocheck.body": 0, "C01.king.nocheck": 1, "C01.bishop.check.body": 2}, 3)
+# C02
+_thorough("C02.valid_preserved")
+_untag("C02", "C01.is_legal")
+# C03: one incremental-cache kind per slice; build is decided under C06
+_slice({"C02.cache.piece": 0, "C02.cache.king": 1, "C02.cache.castle": 2, "C02.cache.pawn": 3, "C02.cache.ep": 4, "C02.cache.promo": 5}, 6)
+_untag("C03", "C06.build")
+# C04: one incremental-hash kind per slice
+_slice({"C04.hash.piece": 0, "C04.hash.king": 1, "C04.hash.castle": 2, "C04.hash.pawn": 3, "C04.hash.ep": 4, "C04.hash.promo": 5}, 6)
+# C05: castling-subset ground family in three slices
+_slice(dict(("C05.ground.r%02d" % i, k % 3) for k, i in enumerate((0, 1, 2, 3, 4, 5, 7, 8, 10, 11, 12, 13, 14))), 3)
+# C06: build -> thorough; tail windows in three slices
+_thorough("C06.build")
+_slice({"C06.window.17": 0, "C06.window.18": 1, "C06.window.20": 2, "C06.window.22": 0, "C06.window.24": 1, "C06.window.26": 2}, 3)
+# C07: keep the site-specific obligations and the cheap shared ones
+for _o in OBLIGATIONS:
+    if "C07" in _o["props"] and _o["name"] in ("C10.len.cap3", "C10.set_mask.cap6", "C01.check_mask", "C19.iter.file", "C19.iter.rank", "C09.between", "C09.line"):
+        _o.setdefault("prop_tiers", {})["C07"] = "thorough"
+# C08: one square group per slider per slice (thorough: all groups + the single-query forms)
+_slice(dict([("C08.rook.g%d" % i, i) for i in range(4)] + [("C08.bishop.g%d" % i, i) for i in range(4)]), 4)
+# C10: the two removal operations and clone in three slices
+_slice({"C10.remove.cap6": 0, "C10.remove_move.cap6": 1, "C10.clone.cap6": 2}, 3)
